@@ -285,19 +285,19 @@ Example overlong_rejected : nl_utf8decode [192; 175] false = None /\ nl_utf8deco
 Proof. vm_compute. split; reflexivity. Qed.
 
 (* utf8.char: the port's early cast makes it accept arguments that Lua rejects *)
-Definition utf8char_eq_lua : Prop :=
-  forall v, in_i64 v -> match lua_utf8char v with LVal b => nl_utf8char v = Val b | LErr => forall b, nl_utf8char v <> Val b end.
-Lemma utf8char_eq_lua_refuted : ~ utf8char_eq_lua.
-Proof.
-  intros H. specialize (H 4294967361 ltac:(vm_compute; intuition congruence)).
-  vm_compute in H. apply (H [65]). reflexivity.
-Qed.
-Lemma utf8char_eq_lua_partial v b : 0 <= v < two32 -> lua_utf8char v = LVal b -> nl_utf8char v = Val b.
+(* utf8.char (after e5d4eb9): same bytes where Lua returns, a stop exactly where Lua raises *)
+Lemma utf8char_eq_lua v : in_i64 v ->
+  match lua_utf8char v with LVal b => nl_utf8char v = Val b | LErr => nl_utf8char v = Trap end.
 Proof.
   intros Hv. unfold lua_utf8char, nl_utf8char.
-  rewrite (u64_small v) by (unfold two32, two64 in *; lia). rewrite (Z.mod_small v two32) by lia.
-  change NL_UTF8ESC_MAX with LUA_MAXUTF.
-  destruct (LUA_MAXUTF <? v); [discriminate|]. destruct (utf8esc v); [|discriminate]. intros [= <-]. reflexivity.
+  change NL_UTF8CHAR_MAX with 2147483647. change NL_UTF8ESC_MAX with 2147483647. change LUA_MAXUTF with 2147483647.
+  unfold u64, in_i64, minint, maxint, two63, two64, two32 in *.
+  destruct (Z.leb_spec 0 v); destruct (Z.leb_spec v 2147483647); cbn [andb negb].
+  - rewrite !Z.mod_small by lia. destruct (Z.ltb_spec 2147483647 v); [lia|].
+    destruct (utf8_roundtrip v ltac:(lia)) as (bs & -> & _). reflexivity.
+  - destruct (Z.ltb_spec 2147483647 (v mod 18446744073709551616)); [reflexivity|lia].
+  - destruct (Z.ltb_spec 2147483647 (v mod 18446744073709551616)); [reflexivity|lia].
+  - lia.
 Qed.
 
 (* ---- position arguments: utf8relpos = u_posrelat - 1 wherever either is valid ---- *)
@@ -315,17 +315,18 @@ Qed.
 (* ---- utf8.codepoint ---- *)
 Lemma cp_loop_val k : forall s len i p strict c,
   nl_cp_loop k s len i p strict = Val c ->
-  exists n, nl_utf8decode (skipn (Z.to_nat i) s) strict = Some (c, n) /\ i <= len.
+  exists n, nl_utf8decode (skipn (Z.to_nat i) s) strict = Some (c, n).
 Proof.
   induction k as [|k IH]; intros s len i p strict c; cbn [nl_cp_loop]; [discriminate|].
-  destruct (Z.ltb_spec len p); [discriminate|].
+  destruct (i <? p); [discriminate|]. destruct (len <? p); [discriminate|].
   destruct (nl_utf8decode (skipn (Z.to_nat p) s) strict) as [[code adv]|] eqn:E; [|discriminate].
   destruct (Z.eqb_spec p i) as [->|Hne].
-  - intros [= <-]. exists adv. split; [exact E|lia].
+  - intros [= <-]. exists adv. exact E.
   - apply IH.
 Qed.
 
-(* wherever the port returns a code point, it is the one Lua returns *)
+(* wherever the port returns a code point, it is the one Lua returns (the port decodes from the start of
+   the string and therefore stops on malformed bytes BEFORE position i, where Lua still answers) *)
 Lemma codepoint_eq_lua_partial s i strict c : in_i64 i -> slen s <= maxint ->
   nl_utf8codepoint s i strict = Val c -> lua_utf8codepoint s i strict = LVal c.
 Proof.
@@ -334,18 +335,26 @@ Proof.
   destruct (utf8relpos_eq_lua i (slen s) Hi ltac:(lia)) as [Hiff Heq].
   destruct (Z.leb_spec 0 (nl_utf8relpos i (slen s))) as [Hge|Hlt]; cbn [andb]; [|discriminate].
   destruct (Z.ltb_spec (nl_utf8relpos i (slen s)) (slen s)) as [Hlt|Hge2]; [|discriminate].
-  intros H. apply cp_loop_val in H. destruct H as (n & Hd & _).
+  intros H. apply cp_loop_val in H. destruct H as (n & Hd).
   specialize (Heq Hge). apply Hiff in Hge.
   destruct (Z.ltb_spec (lua_u_posrelat i (slen s)) 1); [lia|].
   destruct (Z.ltb_spec (slen s) (lua_u_posrelat i (slen s))); [lia|].
   rewrite <- decode_eq_lua. rewrite <- Heq. rewrite Hd. reflexivity.
 Qed.
 
-(* full statement: utf8.codepoint never reads outside the string - false today *)
-Definition codepoint_memory_safe : Prop :=
-  forall s i strict, is_bytes s = true -> in_i64 i -> nl_utf8codepoint s i strict <> Unsafe.
-Lemma codepoint_memory_safe_refuted : ~ codepoint_memory_safe.
+(* memory safety (after 6fefee4): every decode starts inside the string *)
+Lemma cp_loop_safe k : forall s len i p strict, i < len -> nl_cp_loop k s len i p strict <> Unsafe.
 Proof.
-  intros H. apply (H [228; 184; 173] 2 true); [reflexivity|vm_compute; intuition congruence|].
-  vm_compute. reflexivity.
+  induction k as [|k IH]; intros s len i p strict Hi; cbn [nl_cp_loop]; [discriminate|].
+  destruct (Z.ltb_spec i p); [discriminate|]. destruct (Z.ltb_spec len p); [lia|].
+  destruct (nl_utf8decode (skipn (Z.to_nat p) s) strict) as [[code adv]|]; [|discriminate].
+  destruct (p =? i); [discriminate|]. apply IH. exact Hi.
+Qed.
+
+Lemma codepoint_memory_safe s i strict : nl_utf8codepoint s i strict <> Unsafe.
+Proof.
+  unfold nl_utf8codepoint.
+  destruct (Z.leb_spec 0 (nl_utf8relpos i (slen s))); cbn [andb]; [|discriminate].
+  destruct (Z.ltb_spec (nl_utf8relpos i (slen s)) (slen s)); [|discriminate].
+  apply cp_loop_safe. assumption.
 Qed.
